@@ -643,8 +643,41 @@ struct FloatCurve {
     kind: &'static str,
 }
 fn gen_float(rng: &mut Rng, deg: usize, dim: usize) -> FloatCurve {
-    let sel = rng.below(20);
-    let (pts, kind): (Vec<Vec<f64>>, &'static str) = if sel >= 17 {
+    let sel = rng.below(24);
+    let (pts, kind): (Vec<Vec<f64>>, &'static str) = if sel >= 20 && deg == 3 {
+        // a cubic that is a parabola up to rounding: a degree-elevated quadratic whose thirds were
+        // rounded (what `into_cubic()` or an editor's "convert to cubic" produces: the top power
+        // coefficient is a few ulps, not zero), or an exactly degree-reduced cubic with one control
+        // coordinate nudged by 2^-20..2^-50.  The extremum is that of the parabola; the textbook
+        // quadratic formula (-b +- sqrt(b^2 - 4ac)) / 2a cancels catastrophically here
+        if rng.bool() {
+            let sc = *rng.pick(&[1.0, 1.0, 10.0, 0.1]);
+            let q: Vec<Vec<f64>> = (0..3).map(|_| (0..dim).map(|_| (rng.f64_in(-1.0, 1.0) * 1000.0).round() / 1000.0 * sc).collect()).collect();
+            let third = |a: f64, b: f64| a + (b - a) * (2.0 / 3.0);
+            (
+                vec![q[0].clone(), (0..dim).map(|d| third(q[0][d], q[1][d])).collect(), (0..dim).map(|d| third(q[2][d], q[1][d])).collect(), q[2].clone()],
+                "elevated_quadratic",
+            )
+        } else {
+            let mut cols: Vec<Vec<f64>> = Vec::new();
+            for _ in 0..dim {
+                let x0 = rng.range_i64(-6, 6);
+                // not the constant coordinate: nudging that one gives a curve whose whole extent is the
+                // nudge, i.e. a feature inside vek's absolute epsilon bands (not judged, see DESIGN section 7)
+                let (k, m) = loop {
+                    let km = (rng.range_i64(-6, 6), rng.range_i64(-6, 6));
+                    if km != (0, 0) {
+                        break km;
+                    }
+                };
+                let mut col: Vec<f64> = vec![x0, x0 + k, x0 + 2 * k + m, x0 + 3 * k + 3 * m].into_iter().map(|v| v as f64).collect();
+                let which = rng.usize_below(4);
+                col[which] += 2f64.powi(-(rng.range_i64(20, 50) as i32)) * if rng.bool() { 1.0 } else { -1.0 };
+                cols.push(col);
+            }
+            ((0..=deg).map(|kk| (0..dim).map(|d| cols[d][kk]).collect()).collect(), "nearly_degree_reduced")
+        }
+    } else if sel >= 17 {
         // a small curve far from the origin: short dyadic shape (amplitude 2^0..2^-6) translated by
         // 2^20..2^30 per axis, all exactly representable: the position of an extremum does not depend on
         // where the curve sits, but a formula that multiplies coordinates cancels catastrophically here
